@@ -302,8 +302,16 @@ def status_writes(m):
                     continue
                 if s[1][1] and isinstance(s[1][1][-1], list) and s[1][1][-1][2] == "status" and "data::message::Message" in f.local_ty(s[1][0]):
                     r = pa.root(f, s[2][1]) if s[2][0] == "use" else None
+                    g = f
+                    if r and r[0] == "upvar":
+                        # the loop body became a closure (`rows.iter().try_for_each(|m| ..)`): the value is the enclosing
+                        # function's, and so is the site
+                        from rules.common import _upvar_outer
+                        o = _upvar_outer(m, pa, f, r)
+                        if o is not None:
+                            g, r = o
                     v = r[2] if (r and r[0] == "agg") else (("param:" + (r[2] or "?")) if (r and r[0] == "param") else None)
-                    out.append((f, bi, v))
+                    out.append((g if g is not f else f, bi if g is f else 0, v))
                 if s[2][0] == "agg" and s[2][1] == MSG_ROW and "status" in s[2][3]:
                     r = pa.root(f, s[2][4][s[2][3].index("status")])
                     v = r[2] if r[0] == "agg" else root_str(r)
@@ -377,6 +385,19 @@ def r5(cx):
     upd = [c for c in sw.calls() if c.kind == "virtual" and c.q.endswith("DbCollection::update")]
     gsu = [g for g in guards_of(m, sw, upd[0].b, mode="alias") if not g.neutral] if upd else []
     only_loop = all((g.root[0] == "discr" and g.root[1][0] == "call") for g in gsu)
+    if not upd:
+        # `rows.iter().try_for_each(|m| { ..; collection.update(&m) })`: the update sits in the closure handed to the adaptor
+        for fe in sw.calls():
+            if not re.search(r"Iterator(>)?::(try_for_each|for_each)(::<.*>)?$", fe.q) or len(fe.args) < 2:
+                continue
+            k = pa.root(sw, fe.args[1])
+            if k[0] == "closure" and k[1] in m.fns:
+                gcl = m.fns[k[1]]
+                u2 = [c for c in gcl.calls() if c.kind == "virtual" and c.q.endswith("DbCollection::update")]
+                if len(u2) == 1 and not [g for g in guards_of(m, gcl, u2[0].b, mode="alias") if not g.neutral]:
+                    upd = [fe]
+                    gsu = [g for g in guards_of(m, sw, fe.b, mode="alias") if not g.neutral]
+                    only_loop = all((g.root[0] == "discr" and g.root[1][0] == "call") or re.search(r"Try>::branch", str(g.root[1])) for g in gsu)
     cx.ob("C09.R5", "action:updates-each", len(upd) == 1 and only_loop, "every selected message is updated unconditionally", upd[0].loc if upd else sw.loc())
     # ack
     a = m.one(r"^acts::scheduler::runtime::Runtime::ack$")
